@@ -131,9 +131,15 @@ def nums_close(tokens, ref):
     return True
 
 
-def build_atoms(n, bonds, elements):
+def build_atoms(n, bonds, elements, type_per_atom=False):
     from mofun import Atoms
     from mofun.atomic_masses import ATOMIC_MASSES
+    if type_per_atom:
+        # every atom has an atom type of its own (as in a data file written by a tool that types atoms one by one), the type table
+        # listed in the reverse order of the atoms: as many types as atoms, and type numbers that are not the atom numbers
+        return Atoms(atom_types=[n - 1 - i for i in range(n)], positions=np.zeros((n, 3)), atom_type_elements=list(reversed(elements)),
+                     atom_type_masses=[ATOMIC_MASSES.get(e, 1.0) for e in reversed(elements)], atom_type_labels=["%s%d" % (e, n - 1 - k) for k, e in enumerate(reversed(elements))],
+                     bonds=bonds, bond_types=[0] * len(bonds))
     types = list(dict.fromkeys(elements))
     return Atoms(atom_types=[types.index(e) for e in elements], positions=np.zeros((n, 3)), atom_type_elements=types,
                  atom_type_masses=[ATOMIC_MASSES.get(e, 1.0) for e in types], atom_type_labels=types,
@@ -143,12 +149,12 @@ def build_atoms(n, bonds, elements):
 RULESETS = [None, None, [({"C_R", "N_R"}, 1.41), ({"C_R"}, 1.5)], [({"C_R", "O_2"}, 1.5), ({"Zr8f4", "O_2"}, 0.5), ({"C_2"}, 1), ({"O_3", "C_3"}, 2)]]
 
 
-def run_pipeline(n, bonds, utypes, exclude, rules=None, index_dtype=None):
+def run_pipeline(n, bonds, utypes, exclude, rules=None, index_dtype=None, type_per_atom=False):
     """the documented parameterisation workflow on the real functions -> atoms (or the exception from dihedral typing).
     index_dtype: the bond list as an index array of another integer width (as read with np.loadtxt(dtype=np.int32), from HDF5, ...)"""
     import mofun.rough_uff as ru
     els = [t[0:2].replace("_", "") if t != "Du" else "H" for t in utypes]
-    a = build_atoms(n, bonds, els)
+    a = build_atoms(n, bonds, els, type_per_atom=type_per_atom)
     if index_dtype is not None:
         a.bonds = np.asarray(a.bonds).astype(index_dtype)
     a.angles = ru.calc_angles(a.bonds)
@@ -234,7 +240,10 @@ def run_case(case, ctx):
     idt = [None, np.int32, None, np.int16, None, np.uint32][case["s"] % 6]
     if idt is not None:
         st.count("graphs_whose_bond_list_is_an_index_array_of_another_integer_width")
-    a, (angles, dihedrals), err = run_pipeline(n, bonds, utypes, exclude, rules, index_dtype=idt)
+    tpa = case["s"] % 5 in (1, 3)
+    if tpa:
+        st.count("graphs_with_one_atom_type_per_atom_listed_in_another_order")
+    a, (angles, dihedrals), err = run_pipeline(n, bonds, utypes, exclude, rules, index_dtype=idt, type_per_atom=tpa)
     st.count("graphs")
     st.seen("shape", case["shape"])
     if max(len(v) for v in adj.values()) >= 9:
@@ -435,6 +444,8 @@ def requirements(stats, tier):
         need.append("too few graphs: %d" % stats.get("graphs"))
     if stats.get("graphs_whose_bond_list_is_an_index_array_of_another_integer_width") < (50 if tier == "quick" else 5000):
         need.append("graphs whose bond list is an int32/int16/uint32 array: %d" % stats.get("graphs_whose_bond_list_is_an_index_array_of_another_integer_width"))
+    if stats.get("graphs_with_one_atom_type_per_atom_listed_in_another_order") < (50 if tier == "quick" else 5000):
+        need.append("graphs with one atom type per atom: %d" % stats.get("graphs_with_one_atom_type_per_atom_listed_in_another_order"))
     if stats.get("graphs_with_an_atom_of_nine_or_more_neighbours") < (10 if tier == "quick" else 1000):
         need.append("graphs with an atom of nine or more neighbours: %d" % stats.get("graphs_with_an_atom_of_nine_or_more_neighbours"))
     if stats.nseen("shape") < 5 or stats.nseen("type_source") < 4 or stats.nseen("exclude_class") < 3:
